@@ -622,7 +622,9 @@ pub fn run(ctx: &mut Ctx) {
         let mut w = W::new();
         v.enc(&mut w);
         let tail = gen::hs(r, gen::TINY).to_bytes();
-        for c in gen::len_corruptions(&w) {
+        let mut all = gen::len_corruptions(&w);
+        all.extend(gen::len_bitflips(&w));
+        for c in all {
             let mut input = c.bytes.clone();
             input.extend_from_slice(&tail);
             if let Some((out, _, dbg, outside)) = hs_call(ctx, &input) {
